@@ -107,7 +107,42 @@ def pred_group_feeder_order(case, trace, twin, oi, code):
     return False
 
 
-PREDICATES = {"group_feeder_order": pred_group_feeder_order}
+def pred_soft_in_feeder(case, trace, twin, oi, code):
+    """D19c: a constructor that FEEDS a multi-feeder value group and itself has a soft group parameter
+    sees the members of exactly the co-feeders that were built before it, i.e. of those registered
+    earlier.  True when every execution of operation oi whose arguments differ between the two runs
+    is such a feeder (the checker has already established that they differ in soft groups only)."""
+    tc, tt, perm = twin
+    feeders = multi_feeder_groups(case)
+    if code != 1605 or not feeders:
+        return False
+    key = lambda ev: (ev["f"], ev["e"])
+    proj = lambda ev: json.dumps(ev.get("args"), sort_keys=True)
+    allb = {key(ev): ev for ot in tt["ops"] for ev in ot["events"] if ev.get("ev") == "exec"}
+    seen = False
+    for ev in trace["ops"][oi]["events"]:
+        if ev.get("ev") != "exec" or key(ev) not in allb or proj(ev) == proj(allb[key(ev)]):
+            continue
+        if canon_args(ev) == canon_args(allb[key(ev)]):
+            continue            # same members in another order
+        if ev.get("role") == "ctor" and ev["f"] in feeders:
+            seen = True
+        else:
+            return False
+    return seen
+
+
+def canon_args(ev):
+    out = []
+    for a in ev.get("args") or []:
+        if a.get("isl"):
+            out.append(("l", tuple(sorted(json.dumps(x) for x in (a.get("l") or [])))))
+        else:
+            out.append(("s", json.dumps(a, sort_keys=True)))
+    return out
+
+
+PREDICATES = {"group_feeder_order": pred_group_feeder_order, "soft_in_feeder": pred_soft_in_feeder}
 
 
 def load_corpus(prop):
@@ -664,6 +699,7 @@ def main():
         # a known finding is the documented behaviour: the model reproduces it at the same operation
         if k and ((ci, oi, code) in model_viol or k.get("model_reproduces") is False):
             known_hits[k["id"]] += 1
+            common.log("known finding", k["id"], "matched at", cases[ci]["id"], "op", oi, "code", code)
         else:
             vio_by_case[ci].append((oi, code))
     reported = set()
